@@ -76,7 +76,13 @@ func extractRendered(src []byte, name string, prelude string, outDir string) (*r
 			rv.lookupSwitchShape(fset, fd)
 		}
 	}
-	for _, n := range []string{"translate", "TraceTranslate"} {
+	for _, d := range f.Decls {
+		if fd, ok := d.(*ast.FuncDecl); ok && fd.Recv == nil && fd.Body != nil && fd.Name.Name == "TraceReduce" {
+			seenT["TraceReduce"] = true
+			rv.traceReduceShape(fset, fd)
+		}
+	}
+	for _, n := range []string{"translate", "TraceTranslate", "TraceReduce"} {
 		if !seenT[n] {
 			rv.ShapeT = append(rv.ShapeT, "no function "+n+" in the rendered file")
 		}
@@ -246,6 +252,77 @@ func (rv *renderedVariant) lookupSwitchShape(fset *token.FileSet, fd *ast.FuncDe
 		}
 		if name == "translate" {
 			rv.NTrans++
+		}
+	}
+}
+
+// traceReduceShape: the generated TraceReduce is nothing but
+//
+//	if IsTrace { switch reduceIndex { case <int>: fmt.Printf("<literal>", look, s) ... } }
+//
+// one integer literal per case, no default, no else branch: the line printed for a reduction is the emitted text of THAT
+// rule (tied to the grammar by the emits clauses of buildTranslate) with the lookahead name and the goto state it is given.
+func (rv *renderedVariant) traceReduceShape(fset *token.FileSet, fd *ast.FuncDecl) {
+	str := func(n ast.Node) string {
+		var b bytes.Buffer
+		format.Node(&b, fset, n)
+		return strings.Join(strings.Fields(b.String()), " ")
+	}
+	bad := func(msg string) { rv.ShapeT = append(rv.ShapeT, "TraceReduce: "+msg) }
+	var names []string
+	if fd.Type.Params != nil {
+		for _, fl := range fd.Type.Params.List {
+			for _, n := range fl.Names {
+				names = append(names, n.Name+" "+str(fl.Type))
+			}
+		}
+	}
+	if strings.Join(names, ", ") != "reduceIndex int, s int, look string" {
+		bad("parameter list is not (reduceIndex, s int, look string)")
+		return
+	}
+	if len(fd.Body.List) != 1 {
+		bad(fmt.Sprintf("body has %d statements, expected one `if IsTrace {...}`", len(fd.Body.List)))
+		return
+	}
+	is, ok := fd.Body.List[0].(*ast.IfStmt)
+	if !ok || is.Init != nil || is.Else != nil || str(is.Cond) != "IsTrace" || len(is.Body.List) != 1 {
+		bad("body is not `if IsTrace { switch reduceIndex {...} }`")
+		return
+	}
+	sw, ok := is.Body.List[0].(*ast.SwitchStmt)
+	if !ok || sw.Init != nil || sw.Tag == nil || str(sw.Tag) != "reduceIndex" {
+		bad("body is not `if IsTrace { switch reduceIndex {...} }`")
+		return
+	}
+	labels := map[string]bool{}
+	for _, c := range sw.Body.List {
+		cc := c.(*ast.CaseClause)
+		if cc.List == nil {
+			bad("unexpected default clause")
+			continue
+		}
+		bl, ok := cc.List[0].(*ast.BasicLit)
+		if len(cc.List) != 1 || !ok || bl.Kind != token.INT {
+			bad("case label is not one integer literal: " + str(cc.List[0]))
+			continue
+		}
+		if labels[bl.Value] {
+			bad("duplicate case " + bl.Value)
+		}
+		labels[bl.Value] = true
+		okBody := false
+		if len(cc.Body) == 1 {
+			if es, ok := cc.Body[0].(*ast.ExprStmt); ok {
+				if call, ok := es.X.(*ast.CallExpr); ok && str(call.Fun) == "fmt.Printf" && len(call.Args) == 3 && str(call.Args[1]) == "look" && str(call.Args[2]) == "s" {
+					if f, ok := call.Args[0].(*ast.BasicLit); ok && f.Kind == token.STRING {
+						okBody = true
+					}
+				}
+			}
+		}
+		if !okBody {
+			bad("case " + bl.Value + ": body is not `fmt.Printf(\"<literal>\", look, s)`")
 		}
 	}
 }
